@@ -13,7 +13,15 @@ from ..report import Report
 
 PROP = 'C18'
 
-TUPLES = [('m1', 's1', 'e1', None), ('m1', 's1', 'e2', None), ('m1', 's2', 'e1', None), ('m2', 's1', 'e1', 'cid')]
+TUPLES = [('method-1', 'service-1', 'host-1:8080', None), ('method-1', 'service-1', 'host-2:8080', None),
+          ('method-1', 'service-2', 'host-1:8080', None), ('method-2', 'service-1', 'host-1:8080', 'client-id')]
+
+
+def fresh(t):
+  """A Source whose field values are equal to t but are *new string objects*, as they are when the dispatcher builds
+  them at run time ('%s:%d' % (host, port), str(endpoint))."""
+  from scales.varz import Source
+  return Source(*[None if x is None else (x + '#')[:-1] for x in t])
 AMOUNTS = [1, 2]
 
 _V = None
@@ -57,7 +65,7 @@ def run_sequences(first_ops, length):
       VarzReceiver.VARZ_DATA.clear()
       model = {'c': {}, 'r': {}, 'g': {}, 't': {}}
       for (kind, ti, a, style) in seq:
-        src = Source(*TUPLES[ti])           # fresh object every time
+        src = fresh(TUPLES[ti])             # fresh object, fresh field strings, every time
         if style == 1:
           getattr(V(src), kind)(a)          # instance form (bound to a source)
         else:
@@ -78,7 +86,7 @@ def run_sequences(first_ops, length):
           break
       if bad is None:
         for t, v in model['g'].items():
-          got = VarzReceiver.VARZ_DATA[names['g']].get(Source(*t), 'MISSING')
+          got = VarzReceiver.VARZ_DATA[names['g']].get(fresh(t), 'MISSING')
           if got != v:
             bad = ('C18.gauge', 'gauge for %r reads %r, last value set was %r' % (t, got, v))
             break
@@ -138,7 +146,7 @@ def run_streams(first_vals, length, values):
           ch = world.Chooser(pfx)
           world.set_chooser(ch)
           for v in stream:
-            V.t(Source('m', 's', 'e', None), v)
+            V.t(fresh(('method-x', 'service-x', 'host-x:1', None)), v)
           world.set_chooser(None)
           for i in range(len(pfx), len(ch.points)):
             for alt in range(1, len(ch.points[i].labels)):
@@ -151,7 +159,7 @@ def run_streams(first_vals, length, values):
             break
           retained = list(list(res.values())[0].data)
           agg = VarzAggregator.Aggregate(VarzReceiver.VARZ_DATA, VarzReceiver.VARZ_METRICS)
-          tot = agg['verif.c18.t'][('s', None)].total
+          tot = agg['verif.c18.t'][('service-x', None)].total
           pcts = tot[1:]
           outcomes.add((tuple(retained), tuple(pcts)))
           if sample is None and len(ch.points) >= 2:
